@@ -311,6 +311,53 @@ def compare_struct(tree, stname, parsed, orders, where, problems, int_checks):
         compare_tree(exp[n], p, orders, "%s.%s" % (where, n) if where else n, problems, int_checks)
 
 
+class NoWval(Exception):
+    pass
+
+
+def wval_tokens(node, parsed, orders):
+    """Serialises the expected value tree for the Lean writer model (`WVAL`).  Float texts are
+    taken from the real output (snprintf is not modelled); NoWval when that is impossible."""
+    kind = node[0]
+    if kind == "scalar":
+        sc, v = node[1], node[2]
+        if sc.kind == "flag":
+            return ["b", "1" if v else "0"]
+        if sc.kind == "enum":
+            name = sc.enum.name_of(v)
+            return ["e", I.hexs(name) if name else "-", ("i%d" if sc.enum.signed else "u%d") % sc.enum.bits, str(v)]
+        if sc.kind == "float":
+            if parsed is None or parsed[0] != "tok":
+                raise NoWval()
+            return ["f", I.hexs(parsed[1])]
+        return ["i", sc.cpp_int_type(), str(v)]
+    if kind == "comment":
+        return ["i", "i64", str(node[1])]
+    if kind == "array":
+        items = node[1]
+        got = [] if parsed is None or parsed[0] != "array" else [x for _, x in parsed[1]]
+        if parsed is not None and len(got) != len(items):
+            raise NoWval()
+        asc = bool(items) and items[0][0] == "scalar" and items[0][1].kind in ("uint", "int") and items[0][1].bits == 8
+        out = ["a", "1" if asc else "0", str(len(items))]
+        for k, it in enumerate(items):
+            out += wval_tokens(it, got[k] if parsed is not None else None, orders)
+        return out
+    if kind == "struct":
+        fields = list(node[1])
+        stname = node[2] if len(node) > 2 else None
+        if stname is not None and stname in orders:
+            pos = {n: i for i, n in enumerate(orders[stname])}
+            fields.sort(key=lambda nv: pos.get(nv[0], 1 << 30))
+        got = {} if parsed is None or parsed[0] != "struct" else dict(parsed[1])
+        out = ["s", str(len(fields))]
+        for n, x in fields:
+            out += [I.hexs(n), "1" if x[0] == "comment" else "0"]
+            out += wval_tokens(x, got.get(n) if parsed is not None else None, orders)
+        return out
+    raise AssertionError(kind)
+
+
 def attach_struct_names(st, tree):
     """Adds the struct type name to ('struct', tree) nodes so that nested levels can be re-ordered."""
     by = {}
@@ -445,7 +492,7 @@ def judge_roundtrip(kv, built, d1, d2):
     return problems
 
 
-def judge(prep, st, built, opt, line, stats, int_checks, tok_texts):
+def judge(prep, st, built, opt, line, stats, int_checks, tok_texts, wvals=None):
     """Evaluates one driver answer against the property statement.
     Returns (problems, parsed tree or None, kv)."""
     kv = dict(x.split("=", 1) for x in line.split(" ") if "=" in x)
@@ -486,7 +533,15 @@ def judge(prep, st, built, opt, line, stats, int_checks, tok_texts):
                         n, "missing" if c else "present", c))
         # 2. round trip
         problems.extend(judge_roundtrip(kv, built, d1, d2))
-    else:
+    if wvals is not None and (not rr or (parsed is not None and not problems)):
+        try:
+            tree = ("struct", attach_struct_names(st, built.tree), st.name)
+            toks = wval_tokens(tree, parsed, prep["orders"])
+            wvals.append(("WVAL %d %d %d %d %s %s" % (m, c, b, g, I.hexs("  ") if m else "-", " ".join(toks)), text,
+                          st.name, opt))
+        except NoWval:
+            stats["wval_skipped_float"] = stats.get("wval_skipped_float", 0) + 1
+    if not rr:
         stats["single_line_with_comments_total"] = stats.get("single_line_with_comments_total", 0) + 1
         if kv.get("upd") != "1" or any(d1.get(p) != d2.get(p) for p in built.emitted_paths):
             stats["single_line_with_comments_not_reread"] = stats.get("single_line_with_comments_not_reread", 0) + 1
@@ -535,7 +590,7 @@ def run_modules(chk, mods, buffers_per_struct, r, model_ok, tier, compiler="clan
         run_items.append((binary, "\n".join(lines) + "\n"))
         metas.append((mod, origin, prep, meta, lines))
     results = cppbuild.run_many(run_items, workers=6)
-    int_checks, tok_texts = [], []
+    int_checks, tok_texts, wvals = [], [], []
     second = []      # per module: [(meta index, line)] to run with a comma-repaired text
     for mi, ((mod, origin, prep, meta, lines), res) in enumerate(zip(metas, results)):
         stats["modules"] = stats.get("modules", 0) + 1
@@ -557,7 +612,8 @@ def run_modules(chk, mods, buffers_per_struct, r, model_ok, tier, compiler="clan
         reported = set()
         for ci, ((st, built, opt), ln, ans) in enumerate(zip(meta, lines, out)):
             chk.count()
-            problems, parsed, kv = judge(prep, st, built, opt, ans, stats, int_checks, tok_texts)
+            problems, parsed, kv = judge(prep, st, built, opt, ans, stats, int_checks, tok_texts,
+                                         wvals if model_ok else None)
             if problems is None:
                 continue
             for ftag in struct_features(st):
@@ -617,6 +673,28 @@ def run_modules(chk, mods, buffers_per_struct, r, model_ok, tier, compiler="clan
                                                  "expected": "model decodes the real number text to the field value",
                                                  "theorem_or_correspondence": "model_c06 DINT on real texts"},
                               found_input=False)
+        # the writer model on the whole value tree: exact text
+        seen, wops = set(), []
+        for w in wvals:
+            if w[0] not in seen:
+                seen.add(w[0])
+                wops.append(w)
+        if tier == "quick":
+            wops = wops[:4000]
+        wans = common.Model("model_c06").ask([w[0] for w in wops])
+        wdis = 0
+        for (op, text, stname, opt), a in zip(wops, wans):
+            want = "text " + I.hexs(text)
+            if a != want:
+                wdis += 1
+                if wdis <= 3:
+                    chk.violation("correspondence", {
+                        "op": op, "struct": stname, "options": opt, "observed": text,
+                        "model": I.unhex(a[5:]) if a.startswith("text ") else a,
+                        "expected": "the real text satisfies the statement's clauses; the writer model differs",
+                        "theorem_or_correspondence": "model_c06 WVAL vs WriteToString"}, found_input=False)
+        chk.extra["txt_model_writer_ops"] = chk.extra.get("txt_model_writer_ops", 0) + len(wops)
+        chk.extra["txt_model_writer_disagreements"] = chk.extra.get("txt_model_writer_disagreements", 0) + wdis
         chk.extra["txt_model_ops"] = chk.extra.get("txt_model_ops", 0) + len(ops)
         chk.extra["txt_model_disagreements"] = chk.extra.get("txt_model_disagreements", 0) + dis
 
